@@ -179,6 +179,12 @@ def _expand_bytes_matches(body):
     return rx.sub(rep, body)
 
 
+def _subst_binds(repl, binds):
+    for k, v in binds.items():
+        repl = repl.replace('$' + k, v.replace('\\', '\\\\'))
+    return repl
+
+
 def _inline_closure(body, name, label, log):
     """`let [mut] NAME = || [-> T] { B };` is deleted and every call `NAME()` is replaced by the block `{ B }` (Verus has no
     closures that capture mutable state).  Only for parameterless, non-escaping closures; when B can leave the closure early
@@ -268,7 +274,7 @@ def expand(template_path, repo=REPO):
     """Returns (generated_text, meta) where meta lists functions, line ranges, rewrites."""
     lines = open(template_path).read().split('\n')
     out = []
-    meta = {'functions': [], 'rewrites': [], 'items': [], 'vacuity_twins': [], 'expected_fail': []}
+    meta = {'functions': [], 'rewrites': [], 'items': [], 'vacuity_twins': [], 'expected_fail': [], 'binds': {}}
     cache = {}
 
     def src(file):
@@ -313,6 +319,14 @@ def expand(template_path, repo=REPO):
                 txt = re.sub(r'(?m)^(\s+)(?:pub(?:\([a-z]+\))?\s+)?([a-z_][a-z0-9_]*\s*:)', r'\1pub \2', txt)
             rules = [_parse_rw(f[3:]) for f in a['flags'] if f.startswith('rw ')]
             txt = _apply_rw(txt, rules, a['item'], meta['rewrites'])
+            # `bind NAME REGEX`: group 1 of REGEX in the extracted item text is available as $NAME in later rewrites
+            for f in a['flags']:
+                if f.startswith('bind '):
+                    _, nm, rx = f.split(None, 2)
+                    bm = re.search(rx, txt)
+                    if not bm:
+                        raise Undecided('%s: bind %s: %r not found in the extracted item' % (a['item'], nm, rx))
+                    meta['binds'][nm] = bm.group(1)
             if a.get('prefix'):
                 txt = a['prefix'] + '\n' + txt
             meta['items'].append('%s :: %s' % (a['file'], a['item']))
@@ -404,7 +418,7 @@ def _emit_fn(fb, src, out, meta):
     body = re.sub(r'(?m)^[ \t]*#\[(inline|allow|cfg_attr|deny)[^\]]*\]\s*\n', '', body)
     for nm in fb.inline:
         body = _inline_closure(body, nm, label, meta['rewrites'])
-    body = _apply_rw(body, fb.rw, label, meta['rewrites'])
+    body = _apply_rw(body, [(c, rx, _subst_binds(rp, meta['binds'])) for (c, rx, rp) in fb.rw], label, meta['rewrites'])
     # --- splice loop contracts (from the last loop to the first so offsets stay valid)
     if fb.loops or fb.forghost:
         lp = rsrc.loops(body)
